@@ -85,12 +85,10 @@ SPEC = dict(
         'requests whose +-2 ulp neighbourhood contains a request the generator declines have no finite tolerance and are counted, not judged '
         '(monitor "*.not-judged.tolerance-unbounded"); "*.tolerance-inflated>1e3-by-conditioning" and "*.weak.*" count the profiles whose '
         'tolerance was widened by the measured conditioning, so that vacuity is visible',
-        'twin clause (keys */differs-from-fresh-context): for every request inside the domain with a positive duration the same arguments are '
-        'planned once more on a fresh garbage-filled (0xA5) context; returned duration, all 12 / 14 recorded fields and pos/vel/acc/jer at 4 instants (read-back '
-        'requests: all phase boundaries + 8 instants) must be bitwise equal - the property speaks of the plan of a REQUEST, so the plan may not depend on what the '
-        'context held before (zeroed, 0x47-filled, an unrelated cruise plan, or the plan the arguments were read back from); no tolerance is '
-        'involved, both calls run the same library code on the same arguments. What a declined call leaves in the context is not compared '
-        '(companion: twin on the read-back requests only)',
+        'fresh-context twin (RECORDED, not judged; monitor "twin-differs-from-fresh-context(not judged)"): for every request inside the domain with a positive '
+        'duration the same arguments are planned once more on a fresh garbage-filled (0xA5) context and duration, recorded fields and samples are compared bitwise. '
+        'On the pinned tree they never differ; it is not judged because the property does not state that a plan is independent of what the context held before - '
+        'a warm-started or cached but correct generator would differ in the last bits. The plan made on the used context is judged by every ordinary clause against the limits of ITS request',
         'a request for which the generator reports no positive duration is outside the property (counted per direction in '
         '"*.outside.generator-declined.*"); the sign of a_trajbell_jer/acc is not constrained by the property, only magnitudes and continuity',
         'limits are judged at phase boundaries (both sides), sign changes of vel/acc located by bisection, 301 uniform and 100 random '
